@@ -12,7 +12,7 @@ demo = os.path.join(M, f"{x}.demo.py")
 def sh(cmd, **kw):
     return subprocess.run(cmd, shell=True, capture_output=True, text=True, **kw)
 def tests():
-    r = sh(f"cd {wt} && /venv/bin/python -m pytest -q -p no:cacheprovider --timeout=900 -q test 2>&1 | tail -5")
+    r = sh(f"cd {wt} && /venv/bin/python -m pytest -q -p no:cacheprovider --timeout=900 -q test 2>&1")
     failed = sorted(set(re.findall(r"FAILED (\S+)", r.stdout)))
     return failed, r.stdout[-300:]
 def rundemo():
@@ -26,7 +26,7 @@ a = sh(f"git -C {wt} apply {patch}")
 if a.returncode:
     print("patch does not apply", a.stderr); sys.exit(3)
 # expected failures = what the unchanged current HEAD gives (cached per HEAD); all of them are in BASELINE always_fail
-cache = f"/var/tmp/numpoly-verif-basefail-{head}.json"
+cache = f"/var/tmp/numpoly-verif-basefail-full-{head}.json"
 if os.path.exists(cache):
     expected = json.load(open(cache))
 else:
